@@ -2,7 +2,7 @@
    "In every process" is represented by "for every oracle (= iteration order) at the modelled sites". *)
 From Coq Require Import String List Bool ZArith Permutation.
 Import ListNotations.
-Require Import V.Lib.PyStr V.Lib.JTree V.Det.Model V.Det.Proofs V.Det.Congr V.Det.Refs V.Det.Naming V.Det.Session V.Det.Aggregate.
+Require Import V.Lib.PyStr V.Lib.JTree V.Det.Model V.Det.Proofs V.Det.Congr V.Det.Refs V.Det.Naming V.Det.Session V.Det.Aggregate V.Det.Replicate.
 Open Scope string_scope.
 Open Scope list_scope.
 
@@ -206,6 +206,31 @@ Theorem C15_aggregate_separated : forall piS refs ps,
 Proof. exact aggregate_separated. Qed.
 Print Assumptions C15_aggregate_separated.
 
+(* ---------------------------------------------------------------- S6: which templates replicate *)
+(* ScopeStack.can_template_replicate (work list, visited set, parameters in the key order of the `args` mapping,
+   two scans per string, `break` at an aggregating producer: Det.Replicate.walk) answers: the instance is a
+   Component that replicates itself, or does not aggregate and reaches a replicating Component through producers
+   that are met before an aggregating one in their scan (succ). *)
+Theorem C15_replicates_reachability : forall t l,
+  can_replicate t l = true <->
+  comp t l = true /\ (repl t l = true \/ (agg t l = false /\ exists r, reach t l r /\ repl t r = true)).
+Proof. exact can_replicate_spec. Qed.
+Print Assumptions C15_replicates_reachability.
+
+(* hence the answer is a function of the SETS of (counting) producers of the instances, whatever the order in
+   which they are met ... *)
+Theorem C15_replicates_set_of_producers : forall t t',
+  same_producers t t' -> forall l, can_replicate t l = can_replicate t' l.
+Proof. exact can_replicate_set. Qed.
+Print Assumptions C15_replicates_set_of_producers.
+
+(* ... in particular it is the same for two equal namespaces that write the keys of their `args` mappings in
+   different orders (the strings, i.e. the scans, are untouched: ordered data), for every instance. *)
+Theorem C15_replicates_key_order_invariant : forall t t',
+  tbl_rel t t' -> forall l, can_replicate t l = can_replicate t' l.
+Proof. exact can_replicate_key_order. Qed.
+Print Assumptions C15_replicates_key_order_invariant.
+
 (* non-vacuity: three files a, b, c given as [a; b; c; a]; x is defined by all of them, y only by b.
    The hypotheses hold, the loader succeeds, x comes from a (the last one given), y from b; reversing
    every iteration order changes nothing; the memo buffer of a permuted dictionary is the same. *)
@@ -344,4 +369,31 @@ Proof.
   - vm_compute; reflexivity.
   - vm_compute; reflexivity.
   - vm_compute; reflexivity.
+Qed.
+
+(* non-vacuity of the S6 traversal statements: `generate` replicates, `summarise` aggregates it, `relay` passes it
+   on, `report` consumes the aggregate, the relay and a text, `plot` only the aggregate; the args mapping of `report`
+   in two key orders (aggregate first / last): related, different, report replicates in both, plot in none. *)
+Definition ex_tbl (o : bool) : tbl :=
+  let e (n : string) : loc := ["entry-instance"; n] in
+  let ps := [("p", [[e "summarise"]; []]); ("r", [[]; []]); ("q", [[]; [e "relay"]])] in
+  [mk_inst ["entry-instance"] false false false [];
+   mk_inst (e "plot") true false false [("q", [[e "summarise"]; []])];
+   mk_inst (e "report") true false false (if o then rev ps else ps);
+   mk_inst (e "summarise") true false true [("parts", [[e "generate"]; []])];
+   mk_inst (e "relay") true false false [("b", [[]; []]); ("a", [[e "generate"]; []])];
+   mk_inst (e "generate") true true false []].
+
+Example C15_nonvacuous_replicates :
+  tbl_rel (ex_tbl false) (ex_tbl true) /\ ex_tbl false <> ex_tbl true /\
+  can_replicate (ex_tbl false) ["entry-instance"; "report"] = true /\
+  can_replicate (ex_tbl true) ["entry-instance"; "report"] = true /\
+  can_replicate (ex_tbl true) ["entry-instance"; "plot"] = false /\
+  can_replicate (ex_tbl true) ["entry-instance"; "summarise"] = false /\
+  reach (ex_tbl false) ["entry-instance"; "report"] ["entry-instance"; "generate"].
+Proof.
+  split; [|split; [discriminate|repeat split; try (vm_compute; reflexivity)]].
+  - repeat constructor. cbn. apply Permutation_rev.
+  - apply (reach_step _ _ ["entry-instance"; "relay"]); [vm_compute; tauto|].
+    apply (reach_step _ _ ["entry-instance"; "generate"]); [vm_compute; tauto|apply reach_refl].
 Qed.
